@@ -1,8 +1,65 @@
 import ApolloModel.Model.Proto
-open Apollo Apollo.Proto
+import ApolloModel.Model.Lexer
+import ApolloModel.Model.AstParse
+import ApolloModel.Model.AstDump
+open Apollo Apollo.Proto Apollo.Ast
 namespace Driver
 
 /-- streams of property C08 are named `c08.<name>` -/
-def c08 (_stream : String) (_fs : List String) : String := "unknown-stream"
+def punctOf : Lex.Kind → Option P
+  | .bang => some .bang | .dollar => some .dollar | .amp => some .amp | .spread => some .spread
+  | .colon => some .colon | .eq => some .eq | .at => some .at | .lParen => some .lParen
+  | .rParen => some .rParen | .lBracket => some .lBracket | .rBracket => some .rBracket
+  | .lCurly => some .lCurly | .rCurly => some .rCurly | .pipe => some .pipe
+  | _ => none
+
+/-- significant tokens of the lexer model's output; `none` on a lexical error -/
+def sigToks : List Lex.Item → Option (List Tok)
+  | [] => some []
+  | .tok k d :: r =>
+    match k with
+    | .whitespace | .comment | .comma | .eof => sigToks r
+    | .name => (sigToks r).map (Tok.name d :: ·)
+    | .int => (sigToks r).map (Tok.int d :: ·)
+    | .float => (sigToks r).map (Tok.float d :: ·)
+    | .stringValue =>
+      match Strs.decodeStringToken d with
+      | some s => (sigToks r).map (Tok.str s :: ·)
+      | none => none
+    | k =>
+      match punctOf k with
+      | some p => (sigToks r).map (Tok.p p :: ·)
+      | none => none
+  | _ :: _ => none
+
+def parseSource (src : Str) : Option Document :=
+  match sigToks (Lex.lex none src) with
+  | some ts => pDocument (2 * ts.length + 10) ts
+  | none => none
+
+def c08 (stream : String) (fs : List String) : String :=
+  match stream, fs with
+  | "c08.ast", [src] =>
+    match parseSource (decodeField src) with
+    | some d => dDocument d
+    | none => "REJECT"
+  | "c08.print", [pre, level, src] =>
+    let pre : Option Str := if pre == "-" then none else some (decodeField pre)
+    match level.toNat?, parseSource (decodeField src) with
+    | some l, some d =>
+      let st := serializeDocument pre l d
+      if st.underflow then "PANIC" else encodeField st.out
+    | _, _ => "REJECT"
+  | "c08.toks", [pre, level, src] =>
+    -- the token stream of the printed text, re-lexed by the lexer model, equals `toksOf` of the commands
+    let pre : Option Str := if pre == "-" then none else some (decodeField pre)
+    match level.toNat?, parseSource (decodeField src) with
+    | some l, some d =>
+      let st := serializeDocument pre l d
+      match sigToks (Lex.lex none st.out) with
+      | some ts => boolStr (ts == toksOf (cDocument (outputEmptyAtStart pre l) d))
+      | none => "lex-error"
+    | _, _ => "REJECT"
+  | _, _ => "bad-case"
 
 end Driver
